@@ -25,6 +25,9 @@ func runC09(c *Ctx) {
 	c.rule("source-error-delivery", "a source-reported error becomes an error event exactly when !(skipVerify && CallGlobalCallbacksAfterVerificationEnabled) (truth table)", 1)
 	c.rule("error-cb-unconditional", "the callback loop calls OnWatchedError for every error event when it is non-nil, and OnNewConfig exactly when non-nil and not suppressed", 2)
 
+	c.rule("store-after-verify", "(shared with C04) the update path's store/verify tables", 5)
+	c.rule("publish-after-store", "(shared with C04) publication follows the store", 3)
+	c.rule("reject-reports", "(shared with C04) stacking and verification errors of an update are submitted to the error callback on every path, whatever the delay state: OnWatchedError is withheld only for source-reported errors while suppressed", 6)
 	c.rule("ez-suppression", "the ez entry points request delayed verification and suppression of global callbacks unconditionally (so that the precise-suppression clause is what ez users get)", 2)
 	k := loadCore(c)
 	if !k.ok {
@@ -261,6 +264,9 @@ func runC09(c *Ctx) {
 					"OnNewConfig != nil && !suppressed", func(e env) bool { return !e.B["isnil(OnNewConfig)"] && !e.B["suppressed"] })
 			}
 		}
+	}
+	for _, sf := range k.storeFns {
+		c04StoreFn(c, k, sf)
 	}
 }
 
